@@ -241,6 +241,53 @@ TRAILCMT = "int tc(int a, int d)\n{\n" + "".join("    a = %s / // d%d\n        2
 
 
 
+# directives between the tokens of constructs that newline options join: a directive line is a wall no token may cross
+PPSPLIT = """#ifdef A
+int run(int a) // p1
+#else
+int run(long a) // p2
+#endif
+{ // p3
+    if (a) // p4
+#ifdef B
+    { // p5
+        a++; // p6
+    } // p7
+#else
+    { // p8
+        a--; // p9
+    } // p10
+#endif
+    else // p11
+#pragma once
+    { // p12
+        a = 0; // p13
+    } // p14
+    return a; // p15
+} // p16
+static void tail(void) // p17
+#pragma weak tail
+{ // p18
+} // p19
+struct s // p20
+#ifdef C
+{ // p21
+    int a; // p22
+#else
+{ // p23
+    long a; // p24
+#endif
+}; // p25
+int v = 1 + // p26
+#if D
+        2 // p27
+#else
+        3 // p28
+#endif
+        ; // p29
+"""
+
+
 def variants(lang):
     """[(name, text)]: the dense program with '//' comments, with /* */ comments, and with no comments"""
     base = DENSE[lang]
@@ -255,6 +302,8 @@ def variants(lang):
     out.append(("cc", "\n".join(lines)))
     if lang in ("C", "CPP"):
         out.append(("tc", TRAILCMT))
+        out.append(("pp", PPSPLIT))
+        out.append(("ppn", "\n".join(l[:l.index(" // p")] if " // p" in l else l for l in PPSPLIT.split("\n"))))
     return out
 
 
